@@ -179,10 +179,12 @@ func (r *Runner) builtin(ctx context.Context, pos syntax.Pos, name string, args 
 		}
 		exit.exiting = true
 	case "set":
-		if err := Params(args...)(r); err != nil {
+		err := Params(args...)(r)
+		// The options before an invalid one have been set already.
+		r.updateExpandOpts()
+		if err != nil {
 			return failf(2, "set: %v\n", err)
 		}
-		r.updateExpandOpts()
 	case "shift":
 		n := 1
 		switch len(args) {
@@ -864,11 +866,12 @@ func (r *Runner) builtin(ctx context.Context, pos syntax.Pos, name string, args 
 					return failf(1, "shopt: unsupported option %q\n", arg)
 				}
 				*opt = mode == "-s"
+				// Right away, as a later argument may be invalid.
+				r.updateExpandOpts()
 			default: // ""
 				r.printOptLine(arg, *opt, supported)
 			}
 		}
-		r.updateExpandOpts()
 
 	case "alias":
 		show := func(name string, als alias) {
